@@ -71,9 +71,12 @@ def tlc(scratch, cfg, module, extra, out_path, timeout, workers=None):
             shutil.copy(os.path.join(ROOT, "spec", f), d)
     cmd = ["timeout", str(timeout), "tlc", "-workers", str(workers or max(4, NCPU // 2)), "-metadir", os.path.join(d, "md"),
            "-config", cfg] + extra + [module]
+    # the tlc wrapper gives every JVM a quarter of the machine's memory; several run at the same time (three jobs, eight
+    # simulation processes per job), so each gets an explicit limit: the kernel's OOM killer ends TLC otherwise
+    heap = "-Xmx2g" if workers == 1 else ("-Xmx12g" if "Dump" not in module else "-Xmx6g")
     t0 = time.time()
     with open(out_path, "w") as out:
-        p = subprocess.run(cmd, cwd=d, stdout=out, stderr=subprocess.STDOUT, env=os.environ)
+        p = subprocess.run(cmd, cwd=d, stdout=out, stderr=subprocess.STDOUT, env=dict(os.environ, JAVA_TOOL_OPTIONS=heap))
     shutil.rmtree(d, ignore_errors=True)
     return p.returncode, time.time() - t0
 
@@ -143,7 +146,8 @@ def replay(shard, job, prop, timeout):
     skip = 0
     journal = shard + ".journal"
     errf = shard + ".stderr"
-    for attempt in range(12):
+    setup_retries = 0
+    for attempt in range(16):
         env = dict(ENV, VERIF_STDERR="1")
         with open(errf, "w") as ef:
             try:
@@ -157,6 +161,11 @@ def replay(shard, job, prop, timeout):
             except Exception:
                 raise Infra("%s produced no summary on %s: %s" % (tool, shard, p.stdout[-500:]))
             break
+        if p.returncode == 3 and setup_retries < 4:
+            # the stack (fake database, broker, gRPC loopback) did not come up in time: a loaded machine, try again
+            setup_retries += 1
+            time.sleep(2 * setup_retries)
+            continue
         if p.returncode == 3 or not os.path.exists(journal):
             raise Infra("%s could not run (rc=%d): %s %s" % (tool, p.returncode, p.stdout[-300:], tail(errf, 300)))
         pl = panic_line(errf)
@@ -189,13 +198,31 @@ def tail(path, n=1500):
 
 
 def panic_line(path):
+    """The Go panic / fatal error a worker died of. A fault whose innermost non-runtime frame lies in the harness
+    itself (not in the code under test) is an error of this machinery: never a verdict about the code."""
+    found = None
     try:
-        for line in open(path, errors="replace"):
-            if line.startswith("panic:") or line.startswith("fatal error:"):
-                return line.strip()
+        lines = open(path, errors="replace").read().splitlines()
     except Exception:
-        pass
-    return None
+        return None
+    for i, line in enumerate(lines):
+        if line.startswith("panic:") or line.startswith("fatal error:"):
+            found = line.strip()
+            running = False
+            for l2 in lines[i + 1:i + 80]:
+                if l2.startswith("goroutine "):
+                    if running:
+                        break
+                    running = True
+                elif running and l2.startswith("\t"):
+                    f = l2.strip().split(":")[0]
+                    if f.startswith("/usr/lib/go") or "/veriftools/go" in f or "/src/runtime/" in f:
+                        continue
+                    if "/harness/" in f and "/pkg/mod/" not in f:
+                        raise Infra("the harness itself failed (%s at %s)" % (found, l2.strip()))
+                    break
+            break
+    return found
 
 
 def merge(total, s):
@@ -310,7 +337,7 @@ def validate_trace(trace_path, cfg, module, scratch, timeout=900):
     shutil.copy(trace_path, os.path.join(d, "trace.ndjson"))
     # long traces make the specification's recursive operators recurse deeply: a larger thread stack
     p = subprocess.run(["timeout", str(timeout), "tlc", "-workers", "1", "-metadir", os.path.join(d, "md"), "-config", cfg + ".cfg", module],
-                       cwd=d, capture_output=True, text=True, env=dict(os.environ, JAVA_TOOL_OPTIONS="-Xss512m"))
+                       cwd=d, capture_output=True, text=True, env=dict(os.environ, JAVA_TOOL_OPTIONS="-Xss512m -Xmx6g"))
     out = p.stdout
     hw = 0
     for m in re.finditer(r'<<"HW", (\d+)>>', out):
